@@ -14,7 +14,7 @@
 //     disc nefc_d a_d[nv] qfrc_inverse_d[nv] efc_force_inv_d[nefc_d] fwdinv0 fwdinv1
 //     D[nefc] R[nefc] floss[nefc] jar[nefc] type[nefc] id[nefc] ncon {dim mu fr[5] adr}[ncon]      (jar = J qacc - aref)
 //     tbias                                                                                      (max |mj_tendonBias|)
-//     nisland noninv enableflags disableflags sparse   (follow ds..anyd; noninv: the efc<->island permutation is not an involution)
+//     nisland noninv enableflags disableflags sparse nfree lowfree   (follow ds..anyd; nfree: dofs outside every island, lowfree: one of them below an island dof; noninv: the efc<->island permutation is not an involution)
 //     ds jnt_m2 jnt_single anyd         (damping-source stratum; joints with jnt_actuatorid == -2 / >= 0; any joint damping left)
 //   xfrc_q is computed here from mj_jac at the body centre of mass (not by mj_xfrcAccumulate).
 #include <stdio.h>
@@ -104,8 +104,22 @@ int main(int argc, char** argv) {
     // extra kinematic trees (seed % 4 < 2): two more root bodies, each with a limited hinge that carries friction loss and a sphere that
     // touches the floor, so that several constraint islands exist whose rows (friction loss / limit / contact) interleave in efc order
     // (the efc <-> island permutation is then not its own inverse)
-    int xtrees = (seed % 4 < 2) ? 2 : 0;
+    // seed % 4 == 0: both constrained; 1: the FIRST extra tree is an unconstrained pendulum (no limit, no friction loss, no collision), so a tree
+    // outside every island has lower dof indices than a tree inside one; 2: an unconstrained ball-joint pendulum first, then a constrained tree;
+    // 3: none
+    int xtrees = (seed % 4 < 3) ? 2 : 0;
     for (int k = 0; k < xtrees; k++) {
+      if (k == 0 && (seed % 4 == 1 || seed % 4 == 2)) {
+        mjg_rng rx = {(uint64_t)seed * 0xA0761D6478BD642FULL + 99};
+        mjsBody* xb = mjs_addBody(mjs_findBody(spec, "world"), NULL); mjs_setName(xb->element, "c09_free_pendulum");
+        xb->pos[0] = 2.0; xb->pos[1] = mjg_range(&rx, -0.3, 0.3); xb->pos[2] = 1.5;
+        mjsJoint* xj = mjs_addJoint(xb, NULL); mjs_setName(xj->element, "c09_xjfree");
+        if (seed % 4 == 1) { xj->type = mjJNT_HINGE; xj->axis[0] = 0; xj->axis[1] = 1; xj->axis[2] = 0; } else xj->type = mjJNT_BALL;
+        mjsGeom* xg = mjs_addGeom(xb, NULL); mjs_setName(xg->element, "c09_xgfree");
+        xg->type = mjGEOM_CAPSULE; xg->size[0] = 0.03; xg->fromto[0] = 0; xg->fromto[1] = 0; xg->fromto[2] = 0;
+        xg->fromto[3] = 0.3; xg->fromto[4] = 0.05; xg->fromto[5] = -0.1; xg->contype = 0; xg->conaffinity = 0; xg->density = 900;
+        continue;
+      }
       mjg_rng rx = {(uint64_t)seed * 0xA0761D6478BD642FULL + 31 * k + 3};
       mjsBody* xb = mjs_addBody(mjs_findBody(spec, "world"), NULL);
       char nm[24]; snprintf(nm, sizeof(nm), "c09_xb%d", k); mjs_setName(xb->element, nm);
@@ -288,6 +302,15 @@ int main(int argc, char** argv) {
           int noninv = 0;
           if (w->nisland > 0) for (int i = 0; i < nefc; i++) { int k = w->map_efc2iefc[i]; if (k < 0 || k >= nefc || w->map_efc2iefc[k] != i) { noninv = 1; break; } }
           printf(" %d %d %d %d %d", w->nisland, noninv, m->opt.enableflags, m->opt.disableflags, mj_isSparse(m));
+          // number of dofs outside every island, and whether one of them has a lower index than a dof inside an island
+          int nfree = 0, lowfree = 0;
+          if (w->nisland > 0) {
+            int maxisl = -1, minfree = nv;
+            for (int i = 0; i < w->nidof; i++) maxisl = mjMAX(maxisl, w->map_idof2dof[i]);
+            for (int i = w->nidof; i < nv; i++) minfree = mjMIN(minfree, w->map_idof2dof[i]);
+            nfree = nv - w->nidof; lowfree = nfree > 0 && minfree < maxisl;
+          }
+          printf(" %d %d", nfree, lowfree);
         }
         printf("\n");
         done++;
